@@ -26,7 +26,8 @@ THEOREMS = [f"NauyacaVerif.C09.{t}" for t in (
     "acl_iff", "acl_response", "unparsed_refused", "contains_interval", "cross_family_never",
     "config_faithful", "default_deny_refuses_all", "disabled_admits",
     "start_faithful", "bad_entry_no_start", "good_entries_start",
-    "denyLine_tie", "denyLine_known", "strict_tie", "third_attempt_tie")] + ['NauyacaVerif.Translated.isAllowed_eq']
+    "denied_53_whatever_limiter", "admitted_defers_to_limiter",
+    "denyLine_tie", "denyLine_known", "strict_tie", "third_attempt_tie", "chain_order_tie")] + ['NauyacaVerif.Translated.isAllowed_eq']
 TRANSLATED = ['isAllowed']
 EXTRACT = ["mwResponses"]
 ASSUMPTIONS = [
@@ -34,6 +35,7 @@ ASSUMPTIONS = [
     "membership never crosses address families: an IPv4-mapped IPv6 peer (::ffff:a.b.c.d) is an IPv6 address and is matched by IPv6 entries only; a scope id (%eth0) on a peer is ignored by membership, as ipaddress does",
     "an absent list and an empty list both mean 'no list configured' (that is how AccessControl and ServerConfig read them)",
     "with access control enabled but an empty policy (no entry in either list, default_allow = true) get_access_control_config builds no component, so the peer string is never parsed and an unparsable peer name (e.g. 'unknown' when the transport has no peername) is served like everybody else; the oracle treats this as 'as configured' (everybody is admitted by that policy) and enforces 'unparsable => 53' wherever a policy exists; AccessControl objects themselves refuse unparsable names under every configuration (family objects)",
+    "the chain is assembled in the order certificate auth, access control, rate limiter (extraction item chainOrder, theorem chain_order_tie); this check configures no certificate rules, so access control is the first component a request meets — with certificate rules a refused peer without a certificate on a protected path would meet the 60 of certificate auth first (family wiring of C04)",
     "the peer address is what the transport reports as peername[0]; the wiring family feeds it through a fake transport, no socket is bound",
 ]
 LEVEL_TEXT = (
@@ -335,12 +337,11 @@ def shape(lst):
 
 class _AclFamily(Family):
     def gen_cases(self, rng, n):
-        for c in FIXED_CASES:
+        k = 0
+        for c in self.share(FIXED_CASES):
+            k += 1
             yield dict(c)
-        k = len(FIXED_CASES)
-        for c in every_prefix_cases(rng):
-            if k >= n:
-                return
+        for c in self.share(every_prefix_cases(rng)):   # every prefix length of both families, spread over the shards
             k += 1
             yield c
         while k < n:
